@@ -448,6 +448,29 @@ func (p c20) Run(t *testing.T, c *Case, s Sched, keepLog bool) *Obs {
 						add("expansion-differs-from-model", fmt.Sprintf("%s: fields %q, model value %q", desc, fields, mv))
 					}
 				}
+				// "$@" / "$*" reflect Args: one field per positional parameter / the IFS-joined string
+				if err == nil && op.Value == "${"+op.Name+"}" && op.Mode == uint(interp.Quote) && len(m.args) > 1 {
+					switch op.Name {
+					case "@":
+						if fmt.Sprintf("%q", fields) != fmt.Sprintf("%q", m.args[1:]) {
+							add("expansion-differs-from-model", fmt.Sprintf("%s: fields %q, positional parameters %q", desc, fields, m.args[1:]))
+						}
+					case "*":
+						sep := " "
+						if v, ok := m.vars["IFS"]; ok {
+							sep = ""
+							if v != "" {
+								sep = string([]rune(v)[:1])
+							}
+						}
+						if len(sep) > 0 && sep[0] >= 0x80 {
+							break // a multi-byte IFS separator is C13/C14's business, not C20's
+						}
+						if want := strings.Join(m.args[1:], sep); len(fields) != 1 || fields[0] != want {
+							add("expansion-differs-from-model", fmt.Sprintf("%s: fields %q, expected [%q]", desc, fields, want))
+						}
+					}
+				}
 				// model effect
 				val, set := m.get(op.Name)
 				null := val == ""
